@@ -3,6 +3,9 @@
 import json, os, glob
 HERE = os.path.dirname(os.path.dirname(os.path.abspath(__file__)))
 CHECKS = {
+ "C14": dict(cat="model_checking", tech="exhaustive exploration of composition expressions (all bracketings of +, empty/None insertions, sum, all resolver permutations by name and by file, resolved once/twice, backend stages, operands used before composing) on real ProcessingPipeline objects against a list-concatenation reference",
+             text="Marker pipelines with order-sensitive transformations, bracketing post-processing, wrapping finalizers and vars are composed in every way up to n pipelines; each composition is observed through a probe conversion (query text, vars, applied, applied_ids) and must equal the reference list-concatenation model; resolver results must not depend on specifier order and follow (priority, specifier).",
+             note="reference model in checks/c14_composition.py; n <= 4 (quick) / 5 (thorough)", ref="§3 C14"),
  "C15": dict(cat="model_checking", tech="explicit-state exploration by history replay over a 12-event menu (loads, conversions, re-initialisation, second backends, failing conversions) on real backends/pipelines; differential probe against a fresh-equivalent setup in every state",
              text="Every history up to depth 4 (quick) / 5 (thorough) is replayed on fresh real objects (fresh backend class with a class-level backend pipeline, fresh user pipeline with state/field-mapping/nested/conditional items, cleared module caches); after every event the backend class attributes must be unchanged, after every history three probe rules must convert exactly as in a fresh setup. Replay determinism is checked first; states/transitions counted.",
              note="histories beyond the depth bound and other event kinds are not covered; canon lists the mutable locations the menu can reach", ref="§3 C15"),
